@@ -5,6 +5,8 @@ import (
 	"strings"
 )
 
+var rePanicLine = regexp.MustCompile(`(?m)^panic: `)
+
 var (
 	reFatal  = regexp.MustCompile(`(?m)^fatal error: (.*)$`)
 	reSignal = regexp.MustCompile(`(?m)^(?:\[signal |SIG)([A-Z]+)`)
@@ -32,6 +34,11 @@ func CrashKind(detail string) string {
 	}
 	if strings.Contains(detail, "goroutine stack exceeds") {
 		return "fatal-stack-overflow"
+	}
+	if rePanicLine.MatchString(detail) {
+		// an unrecovered panic ended the process: it happened on a goroutine
+		// that nobody up the request's stack could have wrapped in a recover
+		return "goroutine-panic"
 	}
 	return "died"
 }
